@@ -169,7 +169,11 @@ func (st *ktState) apply(op []string, o *hx.Out) {
 			}
 			return r + " " + st.tail()
 		case "t-deliver":
-			out, err := st.chans[atoi(op[1])].Deliver(nil, hx.Exact(st.ke.msgs[atoi(op[2])]))
+			out, err := st.chans[atoi(op[1])].Deliver(nil, hx.Lend(st.ke.msgs[atoi(op[2])]))
+			if out != nil {
+				out = append([]byte{}, out...)
+			}
+			hx.Reclaim()
 			bubbleWait()
 			app := "-"
 			if err != nil {
